@@ -1,13 +1,21 @@
-/* h_c17srv.c -- the command line of the real server: main() of src/iodined.c, see h_mainargs.inc */
+/* h_c17srv.c -- the command line of the real server: main() of src/iodined.c, see h_mainargs.inc.  The run ends when
+ * main() calls open_tun(); the configuration it has put into the file-scope variables by then is reported. */
 #include "hlib.h"
 #define main iodined_main
 #include "iodined.c"	/* found through -I <snapshot>/src */
 #undef main
 #define MAIN_FN iodined_main
 #define MAIN_NAME "iodined"
+#define MAIN_PASS_ENV PASSWORD_ENV_VAR
 #include "h_mainargs.inc"
+
+static void ma_reached_tun(void) { }
 
 static void ma_details(void)
 {
-	printf("server users=%d netmask=%d", created_users, netmask);
+	printf("server users=%d netmask=%d topdomain=", created_users, netmask);
+	puthex((unsigned char *)topdomain, strlen(topdomain));
+	printf(" password=");
+	puthex((unsigned char *)password, 33);
+	printf(" myip=%08x check_ip=%d bind_port=%d ns_ip=%08x", (unsigned)ntohl(my_ip), check_ip, bind_port, (unsigned)ntohl(ns_ip));
 }
